@@ -1000,7 +1000,7 @@ SHAPE_AUX = [('lst', [], ('seq', [('tok', 'a'), ('tok', 'b')])), ('one', [], ('t
              ('dic', [], ('seq', [('named', False, 'k', ('tok', 'a')), ('tok', 'b')]))]
 
 
-def run_corpus(chk, seed=0, shrink=True, verbose=False):
+def run_corpus(chk, seed=0, shrink=True, verbose=False, part=(0, 1)):
     """The fixed corpus: DEVIATIONS examples, hand-written probes, and every ordered pair of SHAPE_POOL in one sequence with
     sampled sentences.  Same result shape as `run`."""
     import itertools
@@ -1008,10 +1008,15 @@ def run_corpus(chk, seed=0, shrink=True, verbose=False):
     import enginerun as R
     rng = random.Random(seed)
     stats = _new_stats()
-    for g, texts in _probes():
+    # part = (i, n): this call handles every n-th item starting at i (the corpus is spread over the check's worker processes)
+    for j, (g, texts) in enumerate(_probes()):
+        if j % part[1] != part[0]:
+            continue
         for t in texts:
             _compare(stats, chk, R.Case(g, t), shrink, verbose)
-    for pair in itertools.product(SHAPE_POOL, repeat=2):
+    for j, pair in enumerate(itertools.product(SHAPE_POOL, repeat=2)):
+        if j % part[1] != part[0]:
+            continue
         g = {'rules': [('start', [], ('seq', list(pair)))] + SHAPE_AUX, 'directives': {}, 'keywords': []}
         texts = {''}
         for _ in range(3):
